@@ -246,6 +246,43 @@ def run(facts, tr, rep):
                        "the initial balance is computed from a different parameter than the maximum and is not capped by it: a budget "
                        "configured with initial > maximum starts above its maximum and grants retries that were never funded")
         rep.floor("C08.init-sites:" + adt_def.split("::")[-1], ninit, 1)
+        # CEILING-CONFIG: a budget whose maximum lives in a nested controller must hand the controller bounds that
+        # come from its own constructor parameters, not from a defaulted configuration
+        from ..builders import _classify, _classify_call_field
+        for (ab, i, j, rv) in agg_sites(facts, adt_def):
+            for fn_, op_ in zip(rv["fields"], rv["ops"]):
+                fty = c.types[next(f["ty"] for f in facts.adt(adt_def)["variants"][0]["fields"] if f["name"] == fn_)]
+                if fty.get("k") != "adt" or not facts.adt(fty.get("def") or "") or not atomic_fields(facts, fty["def"]):
+                    continue
+                ctor = peel(tr.expand(tr.operand(ab, op_, (i, j))))
+                if ctor[0] != "call":
+                    continue
+                cc = tr.call_of(ctor)
+                for a_ in cc.args:
+                    cfgv = peel(tr.expand(tr.operand(ab, a_, cc.loc)))
+                    pl = a_.get("move") or a_.get("copy")
+                    cty = ab.local_ty(pl["l"]) if pl and not pl["p"] else {}
+                    cadt = facts.adt(cty.get("def") or "")
+                    if cadt is None or cadt["kind"] != "struct":
+                        continue
+                    for f2 in cadt["variants"][0]["fields"]:
+                        if not (f2["name"].startswith("max") or f2["name"].startswith("min")):
+                            continue
+                        if cfgv[0] == "call":
+                            kinds = _classify_call_field(tr, ab, tr.call_of(cfgv), f2["name"], f2["name"], cty["def"], 0)
+                        elif cfgv[0] == "agg":
+                            b2, rv2 = tr.agg_of(cfgv)
+                            if f2["name"] not in rv2.get("fields", []):
+                                continue
+                            kinds = _classify(tr, b2, tr.expand(tr.operand(b2, rv2["ops"][rv2["fields"].index(f2["name"])], (cfgv[3], cfgv[4]))), f2["name"], cty["def"])
+                        else:
+                            continue
+                        bad = "default" in kinds and "param" not in kinds
+                        rep.ob("C08.CEILING-CONFIG", "%s|%s|%s.%s" % (ab.crate.name, ab.def_, fn_, f2["name"]), not bad,
+                               "%s:%d" % (ab.span["file"], ab.blocks[i]["stmts"][j]["span"]["line"]),
+                               "%s of the %s handed to %s comes from the constructor's parameters" % (f2["name"], cty["def"].split("::")[-1], fn_) if not bad else
+                               "%s of the %s handed to %s is the default value, not the budget's configured bound: the dynamic ceiling "
+                               "ignores the configured maximum/minimum" % (f2["name"], cty["def"].split("::")[-1], fn_))
 
 
 def _ret_nodes(tr, body):
